@@ -51,6 +51,7 @@ def run(ctx):
             nw = 4 if q else 6
             for w in range(nw):
                 worlds.append({"kind": "c64" if w % 3 != 2 else "cd", "rectil": w % 2, "seed": s * 100 + w})
+            worlds.append({"kind": "c64", "many": 1, "seed": s * 100 + 50})      # > 16 local minima, several at the same point (sort stability)
         elif kind == "off":
             for w in range(3 if q else 6):
                 worlds.append({"kind": "off", "negative": 1 if w % 3 == 2 else 0, "seed": s * 100 + w})
